@@ -9,11 +9,11 @@ CONSTANTS
   Targets <- TargetsTwo
   MaxRec = 1
   MaxFatal = 1
-  Timer = "none"
-  EmitMode = "state"
+  Timer = "first"
+  EmitMode = "none"
   Record = TRUE
   Eager = TRUE
-  BatchBug = FALSE
+  BatchBug = TRUE
 VIEW View0
 INVARIANTS TypeOK PerSeriesOrder NoDup NoDropLeak Conservation ShardFifo Complete EmitState EmitFinal
 ACTION_CONSTRAINT Emit
